@@ -411,27 +411,13 @@ inductive DerivesAsserts : List Tok → List (Option String × PE) → Prop
   | named (x used e rest as) (h : Derives used e) (hr : DerivesAsserts rest as) :
       DerivesAsserts (.ident x :: .equal :: used ++ .semicolon :: rest) ((some x, e) :: as)
 
-/-- No trailing garbage: a successful parse of the assertion list derives *all* the tokens, and
-    yields at least one assertion. -/
+/-- No trailing garbage: a successful parse of the assertion list derives *all* the tokens and
+    yields at least one assertion, provided the iteration bound is positive while nothing has been
+    accumulated (`parseSpecToks` calls it with `toks.length + 1`).  Without that proviso the statement
+    is false (`k = 0`, `toks = []`, `acc = []` returns `.ok []`): found by the proof attempt, and the
+    reason why the model's `parseSpecToks` now passes `toks.length + 1` — before, the model accepted the
+    comment-only text `//;` with zero assertions, which the grammar (`assertion+`) does not derive. -/
 theorem C14_asserts_consume_all (fuel k : Nat) (toks : List Tok) (acc out : List (Option String × PE))
-    (h : parseAsserts fuel k toks acc = .ok out) :
-    ∃ news, out = acc.reverse ++ news ∧ DerivesAsserts toks news ∧ (acc = [] → news ≠ []) := by
-  sorry
-
-/-- `C14_asserts_consume_all` is FALSE as stated: with `k = 0`, `toks = []`, `acc = []` the model
-    returns `.ok []` (no assertion at all), so `news = []` although `acc = []`. -/
-theorem C14_asserts_consume_all_counterexample :
-    ¬ (∀ (fuel k : Nat) (toks : List Tok) (acc out : List (Option String × PE)),
-        parseAsserts fuel k toks acc = .ok out →
-        ∃ news, out = acc.reverse ++ news ∧ DerivesAsserts toks news ∧ (acc = [] → news ≠ [])) := by
-  intro hall
-  obtain ⟨news, h1, -, h3⟩ := hall 0 0 [] [] [] rfl
-  have : news = [] := by simpa using h1.symm
-  exact h3 rfl this
-
-/-- The statement holds as soon as the iteration bound is positive when nothing has been
-    accumulated yet (`acc = [] → 0 < k`). -/
-theorem C14_asserts_consume_all_partial (fuel k : Nat) (toks : List Tok) (acc out : List (Option String × PE))
     (hk : acc = [] → 0 < k)
     (h : parseAsserts fuel k toks acc = .ok out) :
     ∃ news, out = acc.reverse ++ news ∧ DerivesAsserts toks news ∧ (acc = [] → news ≠ []) := by
@@ -571,5 +557,82 @@ theorem C14_lex_error_propagates (fuel : Nat) (cs : List Char) (acc : List Tok) 
     cases cs with
     | nil => exact absurd rfl hne
     | cons a l => simp only [lexAux, h]
+
+end Rtamt.Front
+
+namespace Rtamt.Front
+
+theorem C14_declTail_length (fuel : Nat) (d d' : Decl) (ts r : List Tok)
+    (h : parseDecl.declTail fuel d ts = .ok (d', r)) : r.length ≤ ts.length := by
+  unfold parseDecl.declTail at h
+  split at h
+  · rename_i rest
+    cases h1 : parseExpr fuel 0 rest with
+    | error e => simp [h1] at h
+    | ok v =>
+      obtain ⟨e, r'⟩ := v
+      simp only [h1, Except.ok.injEq, Prod.mk.injEq] at h
+      obtain ⟨-, rfl⟩ := h
+      obtain ⟨used, rfl, -⟩ := C14_parseExpr_sound _ _ _ _ _ h1
+      simp; omega
+  · simp only [Except.ok.injEq, Prod.mk.injEq] at h
+    obtain ⟨-, rfl⟩ := h
+    exact Nat.le_refl _
+
+theorem C14_parseDecl_length (fuel : Nat) (ts : List Tok) (d : Decl) (r : List Tok)
+    (h : parseDecl fuel ts = some (.ok (d, r))) : r.length ≤ ts.length := by
+  unfold parseDecl at h
+  split at h
+  all_goals (try split at h)
+  all_goals (try simp only [Option.some.injEq, Except.ok.injEq, Prod.mk.injEq, reduceCtorEq] at h)
+  all_goals first
+    | (obtain ⟨-, rfl⟩ := h; simp; omega)
+    | (have := C14_declTail_length _ _ _ _ _ h; simp; omega)
+
+theorem C14_parseDecls_length (fuel k : Nat) (ts : List Tok) (acc ds : List Decl) (r : List Tok)
+    (h : parseDecls fuel k ts acc = .ok (ds, r)) : r.length ≤ ts.length := by
+  induction k generalizing ts acc with
+  | zero =>
+    simp only [parseDecls, Except.ok.injEq, Prod.mk.injEq] at h
+    obtain ⟨-, rfl⟩ := h
+    exact Nat.le_refl _
+  | succ k ih =>
+    simp only [parseDecls] at h
+    split at h
+    · rename_i d rest hd
+      have h1 := C14_parseDecl_length _ _ _ _ hd
+      have h2 := ih _ _ h
+      omega
+    · simp at h
+    · simp only [Except.ok.injEq, Prod.mk.injEq] at h
+      obtain ⟨-, rfl⟩ := h
+      exact Nat.le_refl _
+
+/-- At the level of a whole specification: a successful parse yields at least one assertion, and the
+    assertions derive all the tokens that follow the declarations. -/
+theorem C14_spec_sound (toks : List Tok) (spec : PSpec) (h : parseSpecToks toks = .ok spec) :
+    spec.asserts ≠ [] ∧ ∃ rest, DerivesAsserts rest spec.asserts ∧ rest.length ≤ toks.length := by
+  unfold parseSpecToks at h
+  simp only [bind, Except.bind, pure, Except.pure] at h
+  split at h
+  · simp at h
+  · rename_i v hd
+    obtain ⟨decls, r1⟩ := v
+    simp only at h
+    split at h
+    · simp at h
+    · rename_i asserts ha
+      simp only [Except.ok.injEq] at h
+      subst h
+      obtain ⟨news, hout, hder, hne⟩ :=
+        C14_asserts_consume_all _ _ _ _ _ (fun _ => Nat.succ_pos _) ha
+      simp only [List.reverse_nil, List.nil_append] at hout
+      subst hout
+      refine ⟨hne rfl, r1, hder, ?_⟩
+      have hlen := C14_parseDecls_length _ _ _ _ _ _ hd
+      refine Nat.le_trans hlen ?_
+      split
+      · simp only [List.length_cons]; omega
+      · exact Nat.le_refl _
 
 end Rtamt.Front
